@@ -229,7 +229,7 @@ func doPkg(cfg *Cfg, pc *PkgCfg, pkgs []*packages.Package, overlay map[string]st
 		p := infos[fn]
 		r := &rewriter{fset: p.Fset, info: p.TypesInfo, file: files[fn], pc: pc, sched: pc.Sched && !nosched[base], constsSeen: constsSeen}
 		for _, m := range pc.MemPoints {
-			r.mem = r.mem || (m == base && r.sched)
+			r.mem = r.mem || ((m == base || m == "*") && r.sched)
 		}
 		if err := r.run(); err != nil {
 			return fmt.Errorf("%s: %v", base, err)
